@@ -229,8 +229,17 @@ pub fn sweep_history(shard: &mut Shard, u: &Universe, history: &[DatabaseUpdates
             shard.count("commits_swept_with_deletes");
         }
         let mut all_ok = true;
+        let mut complete = true;
         for n in 1..=p {
+            if shard.time_up() {
+                complete = false;
+                break;
+            }
             all_ok &= crash_case(shard, &tmp, &hist_file, u, history, &exp, pruning, j, n, p);
+        }
+        if !complete {
+            shard.count("commits_cut_short_by_time_budget");
+            break;
         }
         shard.count("commits_swept");
         shard.count(if pruning { "commits_swept:pruning_on" } else { "commits_swept:pruning_off" });
@@ -243,8 +252,18 @@ pub fn sweep_history(shard: &mut Shard, u: &Universe, history: &[DatabaseUpdates
 }
 
 fn one_history(rng: &mut Rng, shard: &mut Shard) -> usize {
-    let u = gen_universe(rng, true);
+    // very deep trees (32/50-byte keys differing in the last nibble) only multiply identical prune
+    // deletes (hundreds of crash points per commit): keep such key sets at <= 4 bytes here
+    let u = loop {
+        let u = gen_universe(rng, true);
+        if u.deepest_common_prefix_key() <= 4 {
+            break u;
+        }
+    };
     shard.seen("entity_key_style", u.entity_style);
+    for s in &u.sort_styles {
+        shard.seen("sort_key_style", s);
+    }
     let opts = GenOpts { odd_shapes: rng.chance(1, 5), churn: true };
     let n = 2 + rng.usize_below(5);
     let mut model = Model::default();
@@ -267,27 +286,28 @@ pub fn spec() -> Spec {
     )
     .assume("a killed process keeps the OS page cache: this models process crash / kill -9, not power loss with lost un-fsynced WAL tails")
     .assume("crash points are exactly the calls of verif_hooks::crash_point in RocksDBWithMerkleTreeSubstateStore::commit (before every individual RocksDB write)")
-    .floor("crash_points_swept", 300)
-    .floor("commits_swept", 30)
-    .floor("commits_swept:pruning_on", 8)
-    .floor("commits_swept:pruning_off", 8)
-    .floor("commits_swept_with_partition_reset", 5)
-    .floor("commits_swept_with_deletes", 5)
-    .floor("uninterrupted_runs_reopened", 8)
+}
+
+fn tier_floors(spec: Spec, tier: Tier) -> Spec {
+    let k = tier.pick(1, 15);
+    spec.floor("crash_points_swept", 150 * k)
+        .floor("commits_swept", 20 * k)
+        .floor("commits_swept:pruning_on", 6 * k)
+        .floor("commits_swept:pruning_off", 6 * k)
+        .floor("commits_swept_with_partition_reset", 4 * k)
+        .floor("commits_swept_with_deletes", 3 * k)
+        .floor("uninterrupted_runs_reopened", 8 * k)
+        // post-states are observable only after the batch write, i.e. at prune deletes
+        .floor("outcome:post", 20 * k)
 }
 
 pub fn run(args: &Args) -> i32 {
-    let mut spec = spec();
-    if args.replay.is_none() {
-        // post-states are observable only after the batch write, i.e. at prune deletes
-        spec = spec.floor("outcome:post", 30);
-    }
-    let mut report = Report::new(args, spec);
+    let mut report = Report::new(args, tier_floors(spec(), args.tier));
     if let Some(path) = &args.replay {
         return replay(path, report);
     }
-    let commits_per_shard = scaled(args, args.tier.pick(4, 130)) as usize;
-    let budget = Duration::from_secs(budget_secs(args.tier, 75, 780));
+    let commits_per_shard = scaled(args, args.tier.pick(8, 80)) as usize;
+    let budget = Duration::from_secs(budget_secs(args.tier, 55, 780));
     report.run_shards(19, args.threads, budget, |_i, rng, shard| {
         let mut swept = 0;
         while swept < commits_per_shard && !shard.time_up() {
